@@ -514,7 +514,10 @@ class PoolLab(object):
                         self.cnt['late-%s-with-followers-queued' % st] += 1
                 self.fault(('late', key), 'late@' + st)
                 self.ev('fault', conn, stage, 'late')
-                return ('delay', self.cmd_timeout * 2.5, act)
+                # 1.5x: the reply arrives after a queued follower has been polled and has sent its first
+                # commands (poll + 10 ms server-timeout probe), but before the follower's own command
+                # timeout; 2.5x: after that as well
+                return ('delay', self.cmd_timeout * (1.5 if U(s, 'lf', key) < 0.7 else 2.5), act)
         if 'slow' in mix and act[0] not in ('refuse',) and U(s, 's', key) < 0.3:
             self.fault(('slow', key), 'slow')
             act = ('delay', [0.002, 0.006, 0.013][int(U(s, 'd', key) * 3)], act)
